@@ -186,9 +186,20 @@ def run_config(rec, seed, k, i, tier):
                     [h, h, h], origin=(-h.sum()/2, -h.sum()/2, -h.sum()/2))
         return out
 
+    # Half of the problems use user-named frequencies whose keys contain a
+    # dot ('0.25Hz'); file-based runs use a directory with a dot in its
+    # name.  Both are legal and end up in the names of the exchanged files.
+    named = bool(r.random() < 0.5)
+    base['named_frequencies'] = named
+
     def make(cfg, tmp):
         grid, model = simgen.build_model(ps)
-        sv = simgen.build_survey(ps, data=obs.copy())
+        if named:
+            ps_ = dict(ps, frequencies={f'{f_:.3f}Hz': f_
+                                        for f_ in ps['frequencies']})
+        else:
+            ps_ = ps
+        sv = simgen.build_survey(ps_, data=obs.copy())
         kw = {'max_workers': cfg['max_workers']}
         if gridding == 'dict':
             kw.update(gridding='dict', gridding_opts=grids(sv, grid))
@@ -224,7 +235,7 @@ def run_config(rec, seed, k, i, tier):
                          lock=os.path.join(tmp, 'tickets'),
                          delays=delays_for(cfg['schedule'], ntask, r))
             mp.tqdm = orig_tqdm if cfg['tqdm'] else None
-            fdir = os.path.join(tmp, 'files')
+            fdir = os.path.join(tmp, 'files.v1')
             sim, sv = make(cfg, fdir)
             out = observables(sim, v)
             rec.case()
